@@ -92,7 +92,7 @@ class Constant(ModelNode):
 
     def eval_int(self, all_constants):
         try:
-            return int(self.value)
+            return plain_int(self.value)
         except ValueError:
             try:
                 return calc.eval(self.value, all_constants)
@@ -523,9 +523,16 @@ def cross_reference(nodes, warn=null_warn):
     return constants
 
 
+def plain_int(text):
+    """ int() of a decimal number written with ASCII digits (int() alone also reads '1_0', ' 5 ' with any blank, and the digits of other scripts) """
+    if isinstance(text, six.string_types) and not re.match(r"[ \t]*[-+]?[0-9]+[ \t]*\Z", text):
+        raise ValueError(text)
+    return int(text)
+
+
 def to_int(x, constants):
     try:
-        return int(x)
+        return plain_int(x)
     except ValueError:
         val = constants.get(x)
         return val if val is not None else calc.eval(x, constants)
